@@ -290,6 +290,7 @@ def _run_wcsec(case):
     w.wcs.cdelt = [10.0, 100.0, 1000.0][:ne]
     w.wcs.crpix = [1] * ne
     w.wcs.crval = [5.0, 50.0, 500.0][:ne]
+    w.wcs.cname = ["en", "ve", "wn"][:ne]
     w.wcs.set()
     ec = ExtraCoords(ndcube=cube)
     ec.wcs = w
@@ -323,6 +324,13 @@ def _run_wcsec(case):
         if list(cur.extra_coords.wcs.world_axis_physical_types) != [ptypes[j] for j in keep]:
             why.append(f"physical types of the WCS-backed extra coords after slicing: {list(cur.extra_coords.wcs.world_axis_physical_types)}, "
                        f"expected the surviving {[ptypes[j] for j in keep]} in that order")
+        names = ["en", "ve", "wn"]
+        try:
+            got_names = list(cur.extra_coords.keys())
+        except Exception as e:  # noqa
+            got_names = f"keys() raised {exc_name(e)}"
+        if got_names != [names[j] for j in keep]:
+            why.append(f"names of the WCS-backed extra coords after slicing: {got_names}, expected the surviving {[names[j] for j in keep]} in that order")
         pw = [pw[j] for j in keep]
         for k, (a, b) in enumerate(zip(cw, pw)):
             exp = b[idx].reshape(src.shape)
